@@ -60,6 +60,8 @@ Judge(cf, s, e) ==
   ELSE IF Has(e, "raise") THEN "OpRaised:" \o e.op
   ELSE LET s2 == Next(cf, s, e) IN
        IF SeqToSet(e.endpoint) # GQuads(s2.E) THEN Clause(cf, e)
+       \* a graph that was announced (add_graph) or written to exists at the endpoint as soon as that write is there, also while it is empty
+       ELSE IF Has(e, "endpoint_graphs") /\ ~(DOMAIN s2.E \ {DEFAULT} \subseteq SeqToSet(e.endpoint_graphs)) THEN "GraphAnnounced:" \o e.op
        ELSE IF e.op \in Reads /\ ~ReadOK(s2.E, e) THEN "ReadAgrees:" \o e.op
        ELSE "ok"
 
